@@ -39,6 +39,24 @@ type c18Deep struct {
 	F   func()
 }
 
+// c18Level / c18Ratio: named numeric types with a String method that is NOT injective (every unknown value prints alike)
+type c18Level int
+
+func (l c18Level) String() string {
+	if l == 0 {
+		return "OFF"
+	}
+	return "LEVEL"
+}
+
+type c18Ratio float64
+
+func (r c18Ratio) String() string { return "ratio" }
+
+type c18Mask uint32
+
+func (m c18Mask) String() string { return "mask" }
+
 func c18f0() {}
 func c18f1() {}
 
@@ -81,6 +99,9 @@ func c18Groups() []c18Group {
 		{"uint64", T(uint64(0)), []interface{}{uint64(0), uint64(math.MaxUint64), uint64(math.MaxUint64 - 1), uint64(1<<53 + 1), uint64(1 << 53)}},
 		{"uintptr", T(uintptr(0)), []interface{}{uintptr(0), uintptr(1), uintptr(math.MaxUint64)}},
 		{"named", T(c18Named(0)), []interface{}{c18Named(0), c18Named(5), c18Named(-5)}},
+		{"stringer-int", T(c18Level(0)), []interface{}{c18Level(0), c18Level(7), c18Level(9), c18Level(-1)}},
+		{"stringer-uint", T(c18Mask(0)), []interface{}{c18Mask(0), c18Mask(1), c18Mask(1 << 31)}},
+		{"stringer-float", T(c18Ratio(0)), []interface{}{c18Ratio(0.5), c18Ratio(0.25), c18Ratio(2)}},
 		{"float64", T(0.0), []interface{}{1.0, 1.5, -1.5, 0.1, 0.1 + 0.2, 0.3, 1e300, 5e-324, math.MaxFloat64, 1.0000000000000002}},
 		{"float32", T(float32(0)), []interface{}{float32(1), float32(1.5), float32(0.1), float32(16777216), float32(16777218), float32(1e-45)}},
 		{"string", T(""), []interface{}{"", "a", "b", "ab", "1", "true", "中文", "a\x00"}},
@@ -166,7 +187,19 @@ func c18Fmt(a interface{}) string {
 	if !c18IsNum(a) {
 		return ""
 	}
-	return fmt.Sprintf("%v", reflect.ValueOf(a))
+	// what equal() compares: the %v rendering of the BASIC value (a String method of a named type plays no part)
+	v := reflect.ValueOf(a)
+	switch v.Kind() {
+	case reflect.Int, reflect.Int8, reflect.Int16, reflect.Int32, reflect.Int64:
+		return fmt.Sprintf("%v", v.Int())
+	case reflect.Uint, reflect.Uint8, reflect.Uint16, reflect.Uint32, reflect.Uint64, reflect.Uintptr:
+		return fmt.Sprintf("%v", v.Uint())
+	case reflect.Float32:
+		return fmt.Sprintf("%v", float32(v.Float()))
+	case reflect.Float64:
+		return fmt.Sprintf("%v", v.Float())
+	}
+	return fmt.Sprintf("%v", v)
 }
 
 func c18Enc(v interface{}) string { return c18EncV(reflect.ValueOf(v), 0) }
